@@ -30,12 +30,20 @@ pub enum LeafKind {
     PR,
     PPM,
     PPR,
+    /// a Mutex / RwLock preceded, inside one tuple value, by an *empty* owned collection: the
+    /// zero-sized collection shares its address with the lock. Collection member only.
+    ZM,
+    ZR,
 }
 
 impl LeafKind {
     pub const ALL: [LeafKind; 6] = [LeafKind::M, LeafKind::R, LeafKind::PM, LeafKind::PR, LeafKind::PPM, LeafKind::PPR];
     pub fn is_rw(self) -> bool {
-        matches!(self, LeafKind::R | LeafKind::PR | LeafKind::PPR)
+        matches!(self, LeafKind::R | LeafKind::PR | LeafKind::PPR | LeafKind::ZR)
+    }
+    /// can the leaf be locked on its own (through its own API)?
+    pub fn standalone(self) -> bool {
+        !matches!(self, LeafKind::ZM | LeafKind::ZR)
     }
     /// number of Poisonable layers
     pub fn layers(self) -> usize {
@@ -43,6 +51,7 @@ impl LeafKind {
             LeafKind::M | LeafKind::R => 0,
             LeafKind::PM | LeafKind::PR => 1,
             LeafKind::PPM | LeafKind::PPR => 2,
+            LeafKind::ZM | LeafKind::ZR => 0,
         }
     }
 }
@@ -55,7 +64,12 @@ pub enum Leaf {
     PR(Poisonable<R>),
     PPM(Poisonable<Poisonable<M>>),
     PPR(Poisonable<Poisonable<R>>),
+    ZM(ZP<M>),
+    ZR(ZP<R>),
 }
+
+/// (empty owned collection, lock): the library's tuple impl locks both
+pub type ZP<X> = (OwnedLockCollection<[X; 0]>, X);
 
 impl Leaf {
     pub fn new(kind: LeafKind, pay: Pay) -> Leaf {
@@ -66,6 +80,8 @@ impl Leaf {
             LeafKind::PR => Leaf::PR(Poisonable::new(R::new(pay))),
             LeafKind::PPM => Leaf::PPM(Poisonable::new(Poisonable::new(M::new(pay)))),
             LeafKind::PPR => Leaf::PPR(Poisonable::new(Poisonable::new(R::new(pay)))),
+            LeafKind::ZM => Leaf::ZM((OwnedLockCollection::new([]), M::new(pay))),
+            LeafKind::ZR => Leaf::ZR((OwnedLockCollection::new([]), R::new(pay))),
         }
     }
     pub fn kind(&self) -> LeafKind {
@@ -76,6 +92,8 @@ impl Leaf {
             Leaf::PR(_) => LeafKind::PR,
             Leaf::PPM(_) => LeafKind::PPM,
             Leaf::PPR(_) => LeafKind::PPR,
+            Leaf::ZM(_) => LeafKind::ZM,
+            Leaf::ZR(_) => LeafKind::ZR,
         }
     }
 }
@@ -242,6 +260,8 @@ unsafe impl Lockable for Leaf {
             Leaf::PR(l) => l.get_ptrs(ptrs),
             Leaf::PPM(l) => l.get_ptrs(ptrs),
             Leaf::PPR(l) => l.get_ptrs(ptrs),
+            Leaf::ZM(l) => l.get_ptrs(ptrs),
+            Leaf::ZR(l) => l.get_ptrs(ptrs),
         }
     }
     unsafe fn guard(&self) -> Self::Guard<'_> {
@@ -252,6 +272,8 @@ unsafe impl Lockable for Leaf {
             Leaf::PR(l) => LeafAcc::PR(l.guard()),
             Leaf::PPM(l) => LeafAcc::PPM(l.guard()),
             Leaf::PPR(l) => LeafAcc::PPR(l.guard()),
+            Leaf::ZM(l) => LeafAcc::M(l.guard().1),
+            Leaf::ZR(l) => LeafAcc::R(l.guard().1),
         }
     }
     unsafe fn data_mut(&self) -> Self::DataMut<'_> {
@@ -262,6 +284,8 @@ unsafe impl Lockable for Leaf {
             Leaf::PR(l) => LeafAcc::PR(l.data_mut()),
             Leaf::PPM(l) => LeafAcc::PPM(l.data_mut()),
             Leaf::PPR(l) => LeafAcc::PPR(l.data_mut()),
+            Leaf::ZM(l) => LeafAcc::M(l.data_mut().1),
+            Leaf::ZR(l) => LeafAcc::R(l.data_mut().1),
         }
     }
 }
@@ -281,6 +305,7 @@ unsafe impl Sharable for Leaf {
             Leaf::R(l) => LeafAcc::R(l.read_guard()),
             Leaf::PR(l) => LeafAcc::PR(l.read_guard()),
             Leaf::PPR(l) => LeafAcc::PPR(l.read_guard()),
+            Leaf::ZR(l) => LeafAcc::R(l.read_guard().1),
             _ => unreachable!("happysim: read access generated for a Mutex leaf"),
         }
     }
@@ -289,6 +314,7 @@ unsafe impl Sharable for Leaf {
             Leaf::R(l) => LeafAcc::R(l.data_ref()),
             Leaf::PR(l) => LeafAcc::PR(l.data_ref()),
             Leaf::PPR(l) => LeafAcc::PPR(l.data_ref()),
+            Leaf::ZR(l) => LeafAcc::R(l.data_ref().1),
             _ => unreachable!("happysim: read access generated for a Mutex leaf"),
         }
     }
@@ -342,6 +368,8 @@ impl LockableIntoInner for Leaf {
                 let x = pr(LockableIntoInner::into_inner(l), &mut layers);
                 pr(x, &mut layers)
             }
+            Leaf::ZM(l) => LockableIntoInner::into_inner(l).1,
+            Leaf::ZR(l) => LockableIntoInner::into_inner(l).1,
         };
         LeafOut { pay, layers }
     }
@@ -372,6 +400,8 @@ impl LockableGetMut for Leaf {
                 let x = pr(LockableGetMut::get_mut(l), &mut layers);
                 pr(x, &mut layers)
             }
+            Leaf::ZM(l) => LockableGetMut::get_mut(l).1,
+            Leaf::ZR(l) => LockableGetMut::get_mut(l).1,
         };
         LeafMut { pay, layers }
     }
